@@ -41,7 +41,7 @@ MIN_PER_RULE = {'C06.1': 3, 'C06.2': 3, 'C06.3': 4, 'C06.4': 4, 'C06.5': 5,
 
 def _generators(ctx):
     alloc = ctx.index.get_class(K.SCHED, 'Allocation')
-    gens = [f for f in alloc.methods.values() if any(
+    gens = [f for f in alloc.live_methods() if any(
         isinstance(s, ast.Yield) for s in K.walk_no_nested(f.node))]
     ctx.require(len(gens) == 2, 'two queue generators in Allocation '
                                 '(found %d)' % len(gens))
